@@ -317,6 +317,7 @@ type vTransPLink struct {
 	downEnd  []int64 // stream offset at which each parsed frame of `down` ends
 	downOff  int64   // bytes parsed into frames so far
 	downSent int64   // bytes handed to the follower's socket so far (after the hold-back)
+	why      []string // debug: how each direction ended
 }
 
 type vTransProxy struct {
@@ -408,6 +409,9 @@ func (l *vTransPLink) pump(up bool) {
 			}
 		}
 		if err != nil {
+			l.mu.Lock()
+			l.why = append(l.why, fmt.Sprintf("up=%v read: %v at %s", up, err, time.Now().Format("15:04:05.000")))
+			l.mu.Unlock()
 			break
 		}
 	}
@@ -1177,7 +1181,8 @@ func (x *vTransRun) evClose(c *vTransConn) {
 	n0 := len(x.w.F.srv.GetStreams())
 	before := x.w.F.digest()
 	// the wrapper's Close writes the will commands to the leader when CheckClient yields a link
-	expectFwd := len(c.wills) > 0 && c.wrapped && (x.linkAlive(c) || ((x.role == STATE_FOLLOWER || x.role == STATE_SYNC) && x.addr == 1))
+	hadLink := x.linkAlive(c)
+	expectFwd := len(c.wills) > 0 && c.wrapped && (hadLink || ((x.role == STATE_FOLLOWER || x.role == STATE_SYNC) && x.addr == 1))
 	c.cli.close()
 	c.closed = true
 	x.waitFor(func() bool { return len(x.w.F.srv.GetStreams()) < n0 }, 2*time.Second)
@@ -1191,7 +1196,9 @@ func (x *vTransRun) evClose(c *vTransConn) {
 				for _, f := range l.up {
 					ups = append(ups, vTransCmdStr(f, x.w.tokOf))
 				}
-				fmt.Fprintf(os.Stderr, "DEBUG   link %d dead=%v upTail=%d up=%v down=%d\n", l.id, l.dead, len(l.upTail), ups, len(l.down))
+				if l.id+3 >= len(x.w.px.links) {
+					fmt.Fprintf(os.Stderr, "DEBUG   link %d dead=%v upTail=%d nup=%d first=%v last=%v down=%d sent=%d why=%v\n", l.id, l.dead, len(l.upTail), len(ups), ups[:1], ups[len(ups)-1:], len(l.down), l.downSent, l.why)
+				}
 				l.mu.Unlock()
 			}
 			if lg, err := os.ReadFile(x.w.F.s.aof.dataDir + "/slock.log"); err == nil {
@@ -1208,9 +1215,27 @@ func (x *vTransRun) evClose(c *vTransConn) {
 		x.waitFor(func() bool { return l.isDead() }, 2*time.Second)
 	}
 	time.Sleep(time.Millisecond)
+	// how many frames Close has to write: the will commands, and first the INIT when the link has to be opened for them
+	want := len(c.wills)
+	if expectFwd && !hadLink && c.kind == 'b' && c.initTok >= 0 {
+		want++
+	}
 	fw := x.takeForwarded(c)
 	c.link = nil
-	if len(fw) == 0 {
+	if expectFwd && len(fw) < want {
+		// Close was cut short: the link's reader, relaying the leader's first answers to the client that has gone, hit a write
+		// error and closed the link under Close's feet; the remaining will commands were never written (a race of the real code,
+		// an input of the model: `x c k`)
+		x.out.stat("observed:C10:wills-cut-short-at-close")
+		if os.Getenv("VERIF_TRANS_STRICT") != "" {
+			x.report("C10:will-not-forwarded-at-close", fmt.Sprintf("connection %d registered %d will command(s); when it closed only %d of the %d frames Close had to write reached the leader: %s", c.idx, len(c.wills), len(fw), want, vTransJoin(fw)))
+		}
+		ob := "ok"
+		if len(fw) > 0 {
+			ob = "-|" + vTransJoin(fw)
+		}
+		x.ev(fmt.Sprintf("x %d %d", c.idx, len(fw)), ob)
+	} else if len(fw) == 0 {
 		x.ev(fmt.Sprintf("x %d", c.idx), "ok")
 	} else {
 		x.ev(fmt.Sprintf("x %d", c.idx), "-|"+vTransJoin(fw))
